@@ -118,6 +118,9 @@ def main():
     prog.add_command(lib["Copy"], "done", {"InFieldName": "rd"}, 4)
     prog.add_command(lib["FuzzyNot"], "donefz", {"InFieldName": "fzc"}, 5)
     prog.add_command(lib["PrintVars"], "donebool", {"InFieldNames": ["rd"]}, 6)
+    # a user command that declares no output kind and has not run: nothing can be said about its result, and cleaning a reference to it runs nothing
+    from verif_cmds import noout
+    prog.add_command(noout.Dump, "dmp", {"OutFileName": "dump.txt", "OutFieldNames": ["rd"]}, 7)
     for nm, res in (("done", numpy.ma.array([1.0, 2.0])), ("donefz", numpy.ma.array([0.5, -1.0])), ("donebool", True)):
         prog.commands[nm].is_finished = True
         prog.commands[nm]._result = res
@@ -157,7 +160,7 @@ def main():
     ints = [0, 1, -3, 7, 2 ** 40, 10]
     floats = [0.0, 1.5, -0.25, 1e22, 1e-05, -0.0, float("inf"), float("nan"), 2.0]
     strs = ["12", "-3", "+7", " 4 ", "1_000", "1.5", "1e3", ".5", "nan", "inf", "-Infinity", "0x10", "", "true", "FALSE", "True", "Yes", "0", "1", "2",
-            "rd", "fzc", "wr", "done", "donefz", "donebool", "nosuch", "Float", "Integer", "Positive Float", "Fuzzy", "float",
+            "rd", "fzc", "wr", "done", "donefz", "donebool", "dmp", "nosuch", "Float", "Integer", "Positive Float", "Fuzzy", "float",
             "in.csv", "missing.csv", "sub", "sub/", os.path.join(wd, "in.csv"), os.path.join(wd, "nope"), "/", "a b", "x,y", "LowToHigh"]
     cmdobjs = list(prog.commands.values())
     types = [float, int, numpy.float64, numpy.uint, str]
@@ -171,7 +174,7 @@ def main():
             k = rnd.randint(0, 4)
             mode = rnd.random()
             if mode < 0.4:
-                return [rnd.choice(["rd", "fzc", "done", "donefz", "wr", "nosuch"] + cmdobjs[:2]) for _ in range(k)]
+                return [rnd.choice(["rd", "fzc", "done", "donefz", "wr", "dmp", "nosuch"] + cmdobjs[:2]) for _ in range(k)]
             if mode < 0.7:
                 return [rnd.choice([rnd.choice(ints), rnd.choice(floats[:5]), rnd.choice(strs[:9])]) for _ in range(k)]
             return [rvalue(depth + 1) for _ in range(k)]
@@ -206,7 +209,7 @@ def main():
         if t is P.DataParameter:
             return numpy.ma.array([1.0, 2.0])
         if t is P.ResultParameter:
-            return rnd.choice(["rd", "fzc", "wr", "done", "donefz", "donebool"] + cmdobjs)
+            return rnd.choice(["rd", "fzc", "wr", "done", "donefz", "donebool", "dmp"] + cmdobjs)
         return scal()
 
     def has_array(v):
@@ -224,7 +227,7 @@ def main():
     seen, nontrivial, evaluations = set(), 0, 0
     jobs = []
     for kd, (p, where) in decl_list:      # every declaration x a fixed matrix of raw kinds first
-        for v in [3, 1.5, True, "12", "x", "rd", "donefz", "in.csv", "Float", [], [1, "2"], ["rd"], {"k": "v"}, cmdobjs[0], cmdobjs[4], float, numpy.ma.array([1.0]), None]:
+        for v in [3, 1.5, True, "12", "x", "rd", "donefz", "dmp", "in.csv", "Float", [], [1, "2"], ["rd"], {"k": "v"}, cmdobjs[0], cmdobjs[4], float, numpy.ma.array([1.0]), None]:
             jobs.append((kd, p, where, v, "A"))
         if type(p) is P.PathParameter or (type(p) is P.ListParameter and type(p.value_type) is P.PathParameter):
             # the same relative text under different working directories, in one process, on one parameter object
@@ -265,7 +268,10 @@ def main():
         if v0 is not None and canon(v0) != canon(v):
             fails.append({"sig": "C20:argument-mutated", "what": "clean() of %s altered its raw argument: %r -> %r" % (kd, v0, v), "replay": replay})
         if state0 != [(k, c.is_finished, id(c._result), len(c.arguments)) for k, c in prog.commands.items()]:
-            fails.append({"sig": "C20:program-mutated", "what": "clean() of %s on %r changed the program" % (kd, v), "replay": replay})
+            fails.append({"sig": "C20:program-mutated", "what": "clean() of %s on %r changed the program (finished flags / result objects before: %r)" % (kd, v, [(k, f) for k, f, _, _ in state0]), "replay": replay})
+            for nm in ("rd", "fzc", "wr", "dmp"):        # put the program back so that the next case starts from the same state
+                prog.commands[nm].is_finished = False
+                prog.commands[nm]._result = None
         if o1[0] == "ok":
             if not typed_ok(p, o1[1], program):
                 fails.append({"sig": "C20:not-typed", "what": "clean() of %s on %r returned %r, not a value of the documented type" % (kd, v, o1[1]), "replay": replay})
